@@ -27,7 +27,7 @@ def check(ctx):
         "get_variable_bounds; linprog recorded and replayed into model/Poly.v poly_optimize (compared exactly inside Coq); "
         "the answer compared with an exact rational LP (optimum within 1e-6 relative, None iff unbounded, ValueError iff "
         "infeasible), certificates re-checked by base/Farkas.v. non-trivial = every case; distinct by canonical input")
-    proved = ctx.prove("props/C12.v", ["proofs/PolyFacts.v"])
+    proved = ctx.prove("props/C12.v", ["proofs/PolyFacts.v", "proofs/WrapGenBounds.v"])
     ctx.build(["model/PolyDomain.vo", "base/Farkas.vo"])
     rng = random.Random(ctx.seed + 12)
     n = (200 if ctx.quick else 4000) * (1 if proved else 3)
@@ -94,26 +94,38 @@ def check(ctx):
             if not (okind == "err" and v[0] == 2):
                 ctx.violation("optimize:no_error_on_empty", "optimize did not raise ValueError on an unsatisfiable contract", payload)
             pp.CERTS.append(("infeasible", allc, r["y"]))
-        # variable bounds contain every behaviour
-        if k % 4 == 0 and truth != "infeasible":
+        # variable bounds ARE the minimum and the maximum over all behaviours (None iff unbounded on that side, ValueError iff empty)
+        if k % 2 == 0:
             var = rng.choice(vs)
             okb, vb, _ = pp.observe(lambda: k1.get_variable_bounds(var))
-            if okb == "ok":
+            rmax = lp.maximize({var: F(1)}, allc, extra_vars=vs)
+            rmin = lp.maximize({var: F(-1)}, allc, extra_vars=vs)
+            binfo = dict(payload, variable=var, bounds=list(vb) if okb == "ok" else list(vb),
+                         exact_min=str(-rmin["max"]) if rmin["status"] == "opt" else rmin["status"],
+                         exact_max=str(rmax["max"]) if rmax["status"] == "opt" else rmax["status"])
+            hist["bounds:" + (truth if truth == "infeasible" else "feasible")] = hist.get("bounds:" + (truth if truth == "infeasible" else "feasible"), 0) + 1
+            if rmax["status"] == "infeasible":
+                if not (okb == "err" and vb[0] == 2):
+                    ctx.violation("optimize:bounds_no_error_on_empty", "get_variable_bounds did not raise ValueError on an unsatisfiable contract", binfo)
+            elif okb == "ok":
                 lo, hi = vb
-                rmax = lp.maximize({var: F(1)}, allc, extra_vars=vs)
-                rmin = lp.maximize({var: F(-1)}, allc, extra_vars=vs)
-                bad = False
-                if hi is not None and rmax["status"] == "opt" and rmax["max"] > F(float(hi)) + F(1, 10 ** 6) * (1 + abs(rmax["max"])):
-                    bad = True
-                if hi is not None and rmax["status"] == "unbounded":
-                    bad = True
-                if lo is not None and rmin["status"] == "opt" and -rmin["max"] < F(float(lo)) - F(1, 10 ** 6) * (1 + abs(rmin["max"])):
-                    bad = True
-                if lo is not None and rmin["status"] == "unbounded":
-                    bad = True
+
+                def off(got, exact):
+                    return abs(F(float(got)) - exact) > F(1, 10 ** 6) * (1 + abs(exact))
+                bad = None
+                if rmax["status"] == "opt" and (hi is None or off(hi, rmax["max"])):
+                    bad = "upper bound is not the maximum"
+                if rmax["status"] == "unbounded" and hi is not None:
+                    bad = "finite upper bound although the variable is unbounded above"
+                if rmin["status"] == "opt" and (lo is None or off(lo, -rmin["max"])):
+                    bad = "lower bound is not the minimum"
+                if rmin["status"] == "unbounded" and lo is not None:
+                    bad = "finite lower bound although the variable is unbounded below"
                 if bad:
-                    ctx.violation("optimize:bounds_exclude_behaviour", "get_variable_bounds excludes a behaviour of the contract",
-                                  dict(payload, variable=var, bounds=[lo, hi]))
+                    ctx.violation("optimize:bounds_not_min_max", "get_variable_bounds: " + bad, binfo)
+            elif okb == "err":
+                ctx.violation("optimize:bounds_error_on_nonempty" if vb[0] != 6 else "optimize:escape:" + vb[1],
+                              "get_variable_bounds raised on a satisfiable contract", binfo)
         if k < 2:
             ctx.sample(payload)
     mism, errs = pp.evaluate_cases("c12", exprs)
